@@ -34,7 +34,7 @@ void run_case(char *rest)
 	char *save = NULL, *d = strtok_r(rest, " ", &save), *fl = strtok_r(NULL, " ", &save), *ops = strtok_r(NULL, " ", &save);
 	char *tokp, *save2 = NULL;
 	struct json_tokener *tok;
-	int first = 1;
+	int first = 1, dead = 0;   /* after an error status the API requires a reset: further parses are skipped */
 	long live0;
 	xa_reset();
 	live0 = xa_live;
@@ -47,7 +47,8 @@ void run_case(char *rest)
 		first = 0;
 		switch (tokp[0]) {
 		case 'P': case 'Z': {
-			size_t n; unsigned char *b = unhex(tokp + 1, &n);
+			size_t n;
+			if (dead) { printf("skipped"); break; } unsigned char *b = unhex(tokp + 1, &n);
 			struct json_object *o;
 			enum json_tokener_error e;
 			if (tokp[0] == 'Z') {
@@ -60,17 +61,19 @@ void run_case(char *rest)
 			}
 			free(b);
 			e = json_tokener_get_error(tok);
+			dead = (e != json_tokener_success && e != json_tokener_continue);
 			printf("%s %zu ", err_name(e), json_tokener_get_parse_end(tok));
 			if (e == json_tokener_success) jv_dump(o);
 			else if (o) printf("VALUE-WITH-ERROR");
 			else putchar('-');
 			if (o) json_object_put(o);
 			break; }
-		case 'R': json_tokener_reset(tok); printf("reset"); break;
+		case 'R': json_tokener_reset(tok); dead = 0; printf("reset"); break;
 		case 'N':
 			json_tokener_free(tok);
 			tok = json_tokener_new_ex(atoi(d));
 			json_tokener_set_flags(tok, atoi(fl));
+			dead = 0;
 			printf("new"); break;
 		case 'F': json_tokener_set_flags(tok, atoi(tokp + 1)); printf("flags"); break;
 		default: printf("BADOP");
